@@ -201,6 +201,40 @@ func checkC17(P *Prog, r *Result) {
 			}
 		})
 	}
+	// ... and an option never writes into the map its caller handed it: the same map (or the same option value) given to
+	// two tests would carry the entries of the first into the second
+	for _, fn := range P.Funcs {
+		if fn.Parent() == nil || P.optionKind(fn.Signature) != "TestOption" {
+			continue
+		}
+		eachInstr(fn, func(_ *ssa.BasicBlock, _ int, in ssa.Instruction) {
+			mu, ok := in.(*ssa.MapUpdate)
+			if !ok {
+				return
+			}
+			for _, rt := range P.rootsOf(mu.Map) {
+				name := ""
+				switch v := rt.v.(type) {
+				case *ssa.FreeVar:
+					name = v.Name()
+				case *ssa.Parameter:
+					if v.Parent() != fn {
+						name = v.Name()
+					}
+				}
+				if name == "" {
+					continue
+				}
+				t := rt.v.Type()
+				if pt, isP := t.Underlying().(*types.Pointer); isP {
+					t = pt.Elem()
+				}
+				if _, isMap := t.Underlying().(*types.Map); isMap {
+					r.bad("C17/params-local", fmt.Sprintf("%s#caller-map[%s]", fname(fn), shortName(mu.Key.String())), P.ipos(in), "a test option writes into the map its caller passed ("+name+"): a map or an option value used for two tests carries the entries written for the first test into the second, and the caller's map is modified")
+				}
+			}
+		})
+	}
 	r.floor("C17/params-local", 6)
 
 	// ---- setcoercer ----
